@@ -533,3 +533,8 @@ func readCases(path string) []map[string]interface{} {
 	}
 	return res
 }
+
+// wsWraps: a valid text form wrapped in white space (what a "lenient" parser trims): none of these is the string.
+func wsWraps(s string) []string {
+	return []string{" " + s, s + " ", s + "\n", "\t" + s, s + "\r\n", " " + s + " ", "\u00a0" + s, s + "\u2028", s + "\x00", "\x00" + s, s + "\x0b", "\x0c" + s}
+}
